@@ -74,6 +74,10 @@ void genSimKnobs(vf::Rng& r, vf::Scenario& sc, bool faults);
 /** Load one of the synthetic networks into the INCBIN buffer (before any evaluator exists). */
 void selectNet(const std::string& name);
 
+/** Component harnesses (no UCI session): route the repo hooks to history h and take hook knobs from sc. */
+void beginUnit(const vf::Scenario& sc, History& h);
+void setTTYield(bool on);
+
 /** Hooks for other checks that want to observe evaluations etc. inside session runs. */
 extern void (*evalObserver)(const void* pos, int whiteContempt, int score, int fromCache);
 
